@@ -5,7 +5,6 @@ package state
 import (
 	"bytes"
 	"fmt"
-	"os"
 	"sort"
 	"strings"
 	"testing"
@@ -654,13 +653,6 @@ func TestVerifC14Blocks(t *testing.T) {
 			}
 			// keep some states open (unread) while later blocks are committed and flattened
 			hold := rapid.Bool().Draw(rt, "hold") && len(held) < 3
-			if hold && cfg == "hash+snap" && newRoot != lastFlushed && vs.Known("TestVerifC14Blocks", "held-snapshot-layer-aliased") {
-				// known finding (notes/C14.md): a held middle diff layer of the snapshot tree is
-				// mutated by a later flatten. Excluded by construction: only hold states bound
-				// to the snapshot disk layer (they turn stale properly).
-				hold = false
-				st.Excluded()
-			}
 			if hold {
 				hs, err := New(newRoot, e.db.sdb)
 				if err != nil {
@@ -825,13 +817,16 @@ func TestVerifC14ReturnToDiskRoot(t *testing.T) {
 	}
 }
 
-// TestVerifC14HeldSnapshotLayer is the minimal history of the suspected defect in
-// core/state/snapshot diffLayer.flatten described in notes/C14.md: a state held open
-// at a middle diff layer silently reads a LATER block's storage value after the
-// snapshot tree was flattened. Report-only unless VERIF_C14_REPRO=held (the
-// randomized check TestVerifC14Blocks finds the same thing by itself).
+// TestVerifC14HeldSnapshotLayer is the minimal history of the defect found by the
+// held-state class and fixed in /repo commit e1acebc185 (notes/C14.md): a state held
+// open at a middle snapshot diff layer must not read a LATER block's storage value
+// after the snapshot tree was flattened (value at its own root, or a database error).
 func TestVerifC14HeldSnapshotLayer(t *testing.T) {
 	vs.OnlyShard0(t)
+	st := vs.New("C14", t)
+	c := st.Case()
+	c.Class("held-middle-snapshot-layer-after-flatten")
+	c.NonTrivial(true, "held-snapshot-layer")
 	e := c14NewEnv(nil, "hash+snap")
 	defer e.close()
 	rules := vRuleByName("cancun").r
@@ -862,7 +857,7 @@ func TestVerifC14HeldSnapshotLayer(t *testing.T) {
 	msg := fmt.Sprintf("state opened at block 2 (slot=%x), read after block 3 (slot=%x) and snapshot Cap(head,0): GetState=%x Error()=%v",
 		vVals[1], vVals[2], got, held.Error())
 	t.Log(msg)
-	if got != vVals[1] && held.Error() == nil && os.Getenv("VERIF_C14_REPRO") == "held" {
+	if got != vVals[1] && held.Error() == nil {
 		t.Fatalf("held state silently reads another state's value: %s", msg)
 	}
 }
